@@ -238,6 +238,17 @@ func (sr *scopeRun) idOf(s tally.Scope) string {
 	return strconv.Itoa(id)
 }
 
+// "Scopes derived from a closed scope are inert" (C07) / "scopes obtained afterwards are inert" (C08): judged
+// without the model -- a derivation from a handle whose Close has returned, or after the root's, must hand out
+// the inert scope
+func (sr *scopeRun) checkInert(p int, s tally.Scope) {
+	if !(sr.rootDead || sr.closed[0] || sr.closed[p]) || s == tally.NoopScope {
+		return
+	}
+	sr.c.Cov.Fail(Failure{Kind: "violated", Clause: "derived-from-closed-is-inert", Signature: sr.sigBase + "live-scope-derived-from-closed",
+		Line: strings.Join(sr.lines, " ; "), Reply: fmt.Sprintf("derivation from closed scope %d returned a live scope", p), Detail: strings.Join(sr.lines, "\n")})
+}
+
 func (sr *scopeRun) midOf(m interface{}, kind string) string {
 	if id, ok := sr.metricID[m]; ok {
 		return strconv.Itoa(id)
@@ -688,6 +699,7 @@ func runScopeProgram(c *Ctx, r *Rng, mode string) {
 			name := genScopeStr(r, false)
 			sh := sr.shardFor(p, &name, nil)
 			s := sr.scopes[p].SubScope(name)
+			sr.checkInert(p, s)
 			id := sr.idOf(s)
 			sr.say(fmt.Sprintf("sub %d %s %d => %s %s", p, hxs(name), sh, id, sr.events()), "sub")
 			if i, err := strconv.Atoi(id); err == nil {
@@ -731,6 +743,7 @@ func runScopeProgram(c *Ctx, r *Rng, mode string) {
 				tok := mapHex(m)
 				sh := sr.shardFor(p, nil, m)
 				s2 := sr.scopes[p].Tagged(m)
+				sr.checkInert(p, s2)
 				id := sr.idOf(s2)
 				sr.say(fmt.Sprintf("tag %d %s %d => %s %s", p, tok, sh, id, sr.events()), "tag-collision-candidate")
 				if i, err := strconv.Atoi(id); err == nil {
@@ -775,6 +788,7 @@ func runScopeProgram(c *Ctx, r *Rng, mode string) {
 			}
 			m["zz-added-after"] = "y"
 			_ = keep
+			sr.checkInert(p, s)
 			id := sr.idOf(s)
 			sr.say(fmt.Sprintf("tag %d %s %d => %s %s", p, tok, sh, id, sr.events()), "tag")
 			if i, err := strconv.Atoi(id); err == nil {
@@ -928,6 +942,7 @@ func runScopeProgram(c *Ctx, r *Rng, mode string) {
 				name := alias(*h.name)
 				sh := sr.shardFor(h.parent, &name, nil)
 				s2 := sr.scopes[h.parent].SubScope(name)
+				sr.checkInert(h.parent, s2)
 				sr.say(fmt.Sprintf("sub %d %s %d => %s %s", h.parent, hxs(name), sh, sr.idOf(s2), sr.events()), "reacquire")
 			} else {
 				m := map[string]string{}
@@ -951,6 +966,7 @@ func runScopeProgram(c *Ctx, r *Rng, mode string) {
 				tok := mapHex(m)
 				sh := sr.shardFor(h.parent, nil, m)
 				s2 := sr.scopes[h.parent].Tagged(m)
+				sr.checkInert(h.parent, s2)
 				sr.say(fmt.Sprintf("tag %d %s %d => %s %s", h.parent, tok, sh, sr.idOf(s2), sr.events()), "reacquire")
 			}
 			nontrivial = true
